@@ -5,6 +5,7 @@ import json, os, subprocess, sys, glob
 V = os.path.dirname(os.path.dirname(os.path.abspath(__file__)))
 EXPECT = json.load(open(os.path.join(V, 'regress', 'expect.json')))
 sel = sys.argv[1] if len(sys.argv) > 1 else ''
+REPO = os.environ.get('DV_REPO', '/repo')   # a scratch worktree may be used so that /repo stays free
 ok = True
 items = []
 for name, props in EXPECT.items():
@@ -17,7 +18,7 @@ for d in sorted(glob.glob(os.path.join(V, 'seeded', '*'))):
 for name, patch, props in items:
     if sel not in name:
         continue
-    if subprocess.call(['git', '-C', '/repo', 'apply', patch]) != 0:
+    if subprocess.call(['git', '-C', REPO, 'apply', patch]) != 0:
         print('%-45s ---- DOES-NOT-APPLY (regenerate the patch against the current HEAD)' % name)
         ok = False
         continue
@@ -31,5 +32,5 @@ for name, patch, props in items:
                 ok = False
             print('%-45s %-4s %s  %s' % (name, pr, status, '; '.join(x[:90] for x in rules[:3])))
     finally:
-        subprocess.check_call(['git', '-C', '/repo', 'checkout', '--', '.'])
+        subprocess.check_call(['git', '-C', REPO, 'checkout', '--', '.'])
 sys.exit(0 if ok else 1)
